@@ -213,6 +213,38 @@ def msg_kind(msg):
     return "other"
 
 
+_PROBE_POOL = concurrent.futures.ThreadPoolExecutor(max_workers=8)
+
+
+def run_probe(spec, repo, bdir, gen_name, rl):
+    pout = os.path.join(bdir, gen_name.replace(".rs", "_probe.rs"))
+    pmeta = extract.generate(spec, repo, pout, probe=True)
+    failing_lines = set()
+    missing = list(pmeta["probe_lines"])
+    for me in (0, 6, 40):
+        pr = run_verus(pout, rlimit=rl, multiple_errors=me)
+        for d in pr["diags"]:
+            if d.get("level") != "error":
+                continue
+            for s in d.get("spans", []):
+                for ln in range(s["line_start"], s["line_end"] + 1):
+                    failing_lines.add(ln)
+        missing = [ln for ln in pmeta["probe_lines"] if ln not in failing_lines]
+        if not missing:
+            break
+    with open(pout) as f:
+        plines = f.read().split("\n")
+    exempt = set()
+    for ln in missing:
+        for k in range(max(0, ln - 3), min(ln + 3, len(plines))):
+            if "VACUITY-EXEMPT" in plines[k]:
+                exempt.add(ln)
+    missing = [ln for ln in missing if ln not in exempt]
+    return {"probes": len(pmeta["probe_lines"]), "refuted": len(pmeta["probe_lines"]) - len(missing),
+            "anomalies": [{"line": ln, "function": next((f["qualified"] for f in pmeta["functions"]
+                           if f["gen_lines"][0] <= ln <= f["gen_lines"][1]), "?")} for ln in missing]}
+
+
 def run_unit(unit, repo=REPO, tier="quick", probe=True, rlimit=None, keep_log=True, workdir="_unit"):
     cfg = CONFIG["units"][unit]
     res = UnitResult(unit)
@@ -248,6 +280,10 @@ def run_unit(unit, repo=REPO, tier="quick", probe=True, rlimit=None, keep_log=Tr
         res.labels[f["qualified"]] = labs
     logdir = os.path.join(bdir, "log", unit)
     rl = rlimit or cfg.get("rlimit")
+    probe_future = None
+    if probe and cfg.get("probe", True):
+        # the vacuity probe is an independent Verus run: start it concurrently
+        probe_future = _PROBE_POOL.submit(run_probe, spec, repo, bdir, gen_name, rl)
     r = run_verus(out, logdir=logdir, rlimit=rl)
     res.cmd = r["cmd"]
     js = r["json"]
@@ -322,32 +358,10 @@ def run_unit(unit, repo=REPO, tier="quick", probe=True, rlimit=None, keep_log=Tr
         else:
             res.status = "ok"
     # vacuity probe
-    if probe and res.status == "ok" and cfg.get("probe", True):
-        pout = os.path.join(bdir, gen_name.replace(".rs", "_probe.rs"))
+    if probe_future is not None and res.status == "ok":
         try:
-            pmeta = extract.generate(spec, repo, pout, probe=True)
-            pr = run_verus(pout, rlimit=rl, multiple_errors=40)
-            failing_lines = set()
-            for d in pr["diags"]:
-                if d.get("level") != "error":
-                    continue
-                for s in d.get("spans", []):
-                    for ln in range(s["line_start"], s["line_end"] + 1):
-                        failing_lines.add(ln)
-            missing = [ln for ln in pmeta["probe_lines"] if ln not in failing_lines]
-            with open(pout) as f:
-                plines = f.read().split("\n")
-            exempt = set()
-            for ln in missing:
-                # a probe is exempt when the spec marks the point as intentionally unreachable
-                for k in range(ln, min(ln + 3, len(plines))):
-                    if "VACUITY-EXEMPT" in plines[k]:
-                        exempt.add(ln)
-            missing = [ln for ln in missing if ln not in exempt]
-            res.probe = {"probes": len(pmeta["probe_lines"]), "refuted": len(pmeta["probe_lines"]) - len(missing),
-                         "anomalies": [{"line": ln, "function": next((f["qualified"] for f in pmeta["functions"]
-                                        if f["gen_lines"][0] <= ln <= f["gen_lines"][1]), "?")} for ln in missing]}
-            if missing:
+            res.probe = probe_future.result()
+            if res.probe["anomalies"]:
                 res.status = "undecided"
                 res.reason = "vacuity-probe: assert(false) verified in " + ", ".join(
                     a["function"] for a in res.probe["anomalies"])
